@@ -8,6 +8,7 @@ StepAct ==
   /\ \/ Is("proc")   /\ Proc(Ev.seq, Ev.out, Ev.lost)
      \/ Is("stats")  /\ Stats(Ev.recv, Ev.lost, Ev.last)
      \/ Is("report") /\ Report(Ev.cycles, Ev.seq, Ev.total, Ev.frac)
+     \/ Is("e2e_restart") /\ RestartE2E(Ev.followed, Ev.after, Ev.S)
      \/ Is("end")    /\ UNCHANGED avars
   /\ AInv'
 
